@@ -33,15 +33,79 @@ func ruleR09l(c *Ctx, rule string) {
 		return st, has["Postings"] && has["Script"]
 	}
 	carried := []string{"Timestamp", "Reference", "Metadata"}
+	inScope := func(fn *ssa.Function) bool {
+		pp := fnPkgPath(origin(fn))
+		return pp == pkgLedger || pp == pkgV1 || pp == pkgV2
+	}
 	var fns []*ssa.Function
 	for _, p := range []string{pkgLedger, pkgV1, pkgV2} {
 		fns = append(fns, c.FuncsIn(p)...)
 	}
 	sort.Slice(fns, func(i, j int) bool { return fns[i].Pos() < fns[j].Pos() })
 	n := 0
-	for _, fn := range fns {
+	done := map[string]bool{}
+	type src struct {
+		field string
+		base  ssa.Value
+	}
+	// the request field a stored value is, through the parameters of constructor helpers
+	var sourceOf func(v ssa.Value, env spellEnv, depth int) (src, *types.Struct, bool)
+	sourceOf = func(v ssa.Value, env spellEnv, depth int) (src, *types.Struct, bool) {
+		if depth > 6 {
+			return src{}, nil, false
+		}
+		if cv, ok := v.(*ssa.ChangeType); ok {
+			v = cv.X
+		}
+		if p, ok := v.(*ssa.Parameter); ok {
+			if b, ok := env[p]; ok {
+				return sourceOf(b.v, b.env, depth+1)
+			}
+			return src{}, nil, false
+		}
+		if ld, ok := v.(*ssa.UnOp); ok && ld.Op == token.MUL {
+			if al, ok := ld.X.(*ssa.Alloc); ok {
+				if sv := singleStore(al); sv != nil {
+					if p, ok := sv.(*ssa.Parameter); ok {
+						return sourceOf(p, env, depth+1)
+					}
+				}
+			}
+		}
+		sf, base := anyFieldRead(v)
+		if sf == nil {
+			return src{}, nil, false
+		}
+		if p, ok := base.(*ssa.Parameter); ok {
+			if _, isReq := isRequestShape(p.Type()); !isReq {
+				if b, ok := env[p]; ok {
+					base = b.v
+				}
+			}
+		}
+		if st, ok := isRequestShape(base.Type()); ok {
+			return src{sf.Name(), base}, st, true
+		}
+		return src{}, nil, false
+	}
+	var visitFn func(root, fn *ssa.Function, env spellEnv, depth int, stack map[*ssa.Function]bool)
+	visitFn = func(root, fn *ssa.Function, env spellEnv, depth int, stack map[*ssa.Function]bool) {
 		for _, b := range fn.Blocks {
 			for _, ins := range b.Instrs {
+				if call, ok := ins.(*ssa.Call); ok {
+					if g := staticCallee(call); g != nil && depth < 3 && len(g.Blocks) > 0 && inScope(g) && !stack[g] {
+						env2 := spellEnv{}
+						for i, p := range g.Params {
+							if i < len(call.Call.Args) {
+								env2[p] = spellBinding{call.Call.Args[i], env}
+							}
+						}
+						stack[g] = true
+						visitFn(root, g, env2, depth+1, stack)
+						delete(stack, g)
+					}
+					continue
+				}
 				al, ok := ins.(*ssa.Alloc)
 				if !ok {
 					continue
@@ -55,11 +119,6 @@ func ruleR09l(c *Ctx, rule string) {
 					tn = "RunScript"
 				default:
 					continue
-				}
-				// stores into the fields of the composite: field name → (source field name, source base)
-				type src struct {
-					field string
-					base  ssa.Value
 				}
 				got := map[string][]src{}
 				var reqBase ssa.Value
@@ -84,18 +143,10 @@ func ruleR09l(c *Ctx, rule string) {
 							if !ok || st.Addr != fa {
 								continue
 							}
-							v := st.Val
-							if cv, ok := v.(*ssa.ChangeType); ok {
-								v = cv.X
-							}
-							sf, base := anyFieldRead(v)
-							if sf == nil {
-								continue
-							}
-							if s, ok := isRequestShape(base.Type()); ok {
-								got[f.Name()] = append(got[f.Name()], src{sf.Name(), base})
+							if sc, s, ok := sourceOf(st.Val, env, 0); ok {
+								got[f.Name()] = append(got[f.Name()], sc)
 								if reqBase == nil {
-									reqBase, reqStruct = base, s
+									reqBase, reqStruct = sc.base, s
 								}
 							}
 						}
@@ -105,6 +156,16 @@ func ruleR09l(c *Ctx, rule string) {
 				if reqBase == nil {
 					continue
 				}
+				owner := fn
+				if in, ok := reqBase.(ssa.Instruction); ok && in.Parent() != nil {
+					owner = in.Parent()
+				} else if p, ok := reqBase.(*ssa.Parameter); ok {
+					owner = p.Parent()
+				}
+				if done[fnName(owner)+"/"+tn+fmt.Sprint(al.Pos())] {
+					continue
+				}
+				done[fnName(owner)+"/"+tn+fmt.Sprint(al.Pos())] = true
 				n++
 				for _, name := range carried {
 					hasField := false
@@ -116,7 +177,7 @@ func ruleR09l(c *Ctx, rule string) {
 					if !hasField {
 						continue
 					}
-					key := fmt.Sprintf("%s:%s:carries-%s", fnName(fn), tn, name)
+					key := fmt.Sprintf("%s:%s:carries-%s", fnName(owner), tn, name)
 					ok := false
 					for _, s := range got[name] {
 						if s.field == name && s.base == reqBase {
@@ -131,6 +192,12 @@ func ruleR09l(c *Ctx, rule string) {
 				}
 			}
 		}
+	}
+	for _, fn := range fns {
+		if fn.Synthetic != "" || len(fn.Blocks) == 0 {
+			continue
+		}
+		visitFn(fn, fn, spellEnv{}, 0, map[*ssa.Function]bool{fn: true})
 	}
 	if n < 4 {
 		c.undecided(rule, "floor:request-conversions", token.NoPos, fmt.Sprintf("only %d constructions of TransactionData/RunScript from a request found (4 confirmed by reading: v1 postTransaction ×2, TransactionRequest.ToRunScript ×2)", n))
